@@ -563,7 +563,7 @@ func (s *Sim) userActions() []Action {
 			sd := sd
 			k := sd.NS + "/" + sd.Name
 			if st := have[k]; st == nil {
-				add("user.create-setting "+k, func() { _, _ = s.Store.CreateObj(sd.Object()) })
+				add("user.create-setting "+k, func() { _, _ = s.Store.CreateObj(sd.Object()); s.literalQuantities(sd) })
 			} else {
 				add("user.delete-setting "+k, func() { s.Store.Remove(objKey{KSetting, sd.NS, sd.Name}) })
 				if len(st.Spec.Containers) > 0 {
